@@ -13,7 +13,7 @@ func init() {
 		Explanation: "Decides that every HTTP handler answers on every path and that the degenerate inputs the property names are stopped by a guard before they reach code that aborts: (R1) on every path of every registered handler a response-writing call is made (sanitizers: error ⇒ responded); (R2) a body that does not decode is answered 4xx and the method check precedes the decode; " +
 			"(R3) input guards: digest length compared with the hasher length somewhere on every call chain from the digest-membership handler to the hyper tree, non-empty bulk tested on the chain from the bulk handler to raft.Apply, query parameters length-checked before indexing, optional version nil-tested before dereference, range guard of QueryConsistency; " +
 			"(R4) raft.Apply has a single caller chain (AddBulk → propose) whose payload is what Apply decodes; (R5) locks taken on request paths are released on every exit (a leaked read lock wedges the next insertion); (R6) leaves enter the hyper insert lists only through the sorted de-duplicating inserter (a duplicated event in one bulk would make every replica abort on apply and on replay); (R7) the history write cache is a true LRU (a hit refreshes recency), since nodes frozen inside one bulk exist only there until the batch is persisted.",
-		Added:       "Also (R3) the FSM's verdict is tested before its value is asserted, the version clamp is decided against version-1, every event of the guarded bulk is encoded; (R8) handlers keep request state local. Third round: (R1) after an error answer every handler returns; (R3) the command proposed to raft is well-formed on every path; (R9) request-path goroutines signal their WaitGroup on every exit.",
+		Added:       "Also (R3) the FSM's verdict is tested before its value is asserted, the version clamp is decided against version-1, every event of the guarded bulk is encoded; (R8) handlers keep request state local. Third round: (R1) after an error answer every handler returns; (R3) the command proposed to raft is well-formed on every path; (R9) request-path goroutines signal their WaitGroup on every exit. Fifth round: no re-entrant read lock through a method of the same receiver; the digest-length guard compares an untruncated length.",
 		Assumptions: []string{"net/http recovers handler panics per connection but the FSM apply goroutine is not recovered"},
 		Declined:    "totality over all bodies (every slice index is a potential panic — no sound bound in reach), oversized bodies / memory, 'keeps serving correct answers afterwards' as liveness.",
 	}, runC11)
